@@ -11,6 +11,26 @@ E = {
 }
 # id: (engine, level, text, note, technique)
 CHECKS = {
+ "C05": ("E1", "exploration",
+   "token strings, payload/length strata 0..136, runs and truncations x 30 entry points x placements {ending at a page end followed by an unmapped page, starting at a page start preceded by one, followed by 8 adversarial continuations, 13/64 start alignments}: observation identical to a private exact-length heap copy; faults are caught (SetPanicOnFault) or attributed through the crash path",
+   "over-reads that stay inside a mapped page and do not change the result are unobservable (harmless by the property's wording); SSE covered by C13",
+   "bounded-exhaustive enumeration of (input, memory placement) pairs with a differential oracle and guard pages"),
+ "C06": ("E2", "model_checking",
+   "every history of <= 3/4 operations over ~30 instances (encode family on both sides of the pool limit, ast MarshalJSON/Raw, the caller overwriting every []byte it was given, decode followed by overwriting the input) with sync.Pool replaced by a deterministic maximal-reuse pool: every earlier result keeps its snapshot, outputs equal their fresh-state outputs; EncodeInto x every capacity 0..40 x fills x options with canaries",
+   "the deterministic pool is the maximal-reuse schedule; strings are immutable for the caller",
+   "explicit-state search over operation histories with an invariant checked after every transition + exhaustive capacity sweep"),
+ "C07": ("E1", "exploration",
+   "token strings and single-byte corruptions/truncations of small documents through 27 entry points; nesting-depth grid up to 10^6 (4*10^6 thorough) x shapes x closed/unclosed; cyclic / 100000-deep / unsupported encoder inputs; error objects for ALL (Pos, len) in [-40,len+40] x [0,80]; in crash-isolated workers (death attributed to the announced case, confirmed 5x)",
+   "a 10-minute watchdog stands in for 'hang'; the one-byte-per-Read stream grid stops at depth 65536 (quadratic re-scan, not a hang)",
+   "bounded-exhaustive input enumeration in crash-isolated processes; oracle = survival + usable error values"),
+ "C08": ("E3", "model_checking",
+   "12 scenarios of 2-3 concurrent calls (first use through one or two caches, Pretouch vs use, iterator / stack / state-machine pools, the real ProgramCache with fabricated colliding keys around a rehash) explored for every interleaving with <= 1-3 preemptions at every lock/atomic/pool operation and every statement of the cache, pool and module-registration code; results (incl. what a traceback inside the callback sees) must match a sequential order; -race companion pass",
+   "shimmed sync/atomic/Pool semantics; compilation is thread-local and not instrumented; the assembler's instruction pool is left real",
+   "stateless model checking of the implementation under a controlled scheduler with iterative preemption bounding"),
+ "C10": ("E4", "fault_enumeration",
+   "25 codec programs x EVERY dynamic opcode boundary (sonic's own debug seam re-pointed to the harness) x {GC, stack copy, stack copy + shrink, traceback, Gosched+GC}, one event per run, the event at every boundary, the event inside every user callback, and (thorough) all pairs of boundaries for small programs; background GC off, clobberfree=1; result must equal the undisturbed run and the process must survive",
+   "boundaries in front of a `save` opcode are not runtime intervention points (no call-out there in production; sonic's own seam skips them); events inside runtime helpers mid-opcode cannot be positioned",
+   "exhaustive enumeration of (execution point, runtime event) injections into one execution"),
  "C01": ("E1", "exploration",
    "documents (all token strings <= 4/5 tokens, all JSON trees <= 4/5 nodes in 2 styles, truncations and single-token mutants, binding-rule documents) x 50 destination types x {ConfigStd, ConfigDefault} x {-, UseNumber} + UseInt64: error iff encoding/json errors, else equal canonical dumps",
    "encoding/json is the reference; UseInt64 expectation derived from the reference's UseNumber result by the documented rule",
